@@ -21,7 +21,7 @@ from ref import pathspec, shapespec
 PROPERTY = "C15"
 LEVEL = "exploration"
 RULE = ("curve alphabet (lines, 10 quadratics, 14 cubics, 26 arcs incl. every degenerate class) x 3 magnitudes x error "
-        "settings, each measured directly and under 5 isometries, 3 uniform scales and reversal; 12 path templates and 7 "
+        "settings, each measured directly and under 7 isometries (two of them the reflections with a = d = 0), 3 uniform scales and reversal; 12 path templates and 7 "
         "shapes x errors; point(t) on a 33-point grid + break points +-1e-9.  Non-trivial: the curve has non-zero "
         "length; distinct = distinct (curve, magnitude, error, variant).")
 MANIFEST = dict(
@@ -83,9 +83,11 @@ for nm, prm in {
     CURVES[nm] = ("A", prm)
 
 ERRORS = [1e-4, 1e-6]
-VARIANTS = ["direct", "R30", "R90", "MX", "T", "R17MT", "S2", "Shalf", "Sm3", "reverse", "copy"]
+VARIANTS = ["direct", "R30", "R90", "MX", "SWAP", "NSWAP", "T", "R17MT", "S2", "Shalf", "Sm3", "reverse", "copy"]
 R17MT = af.mul(af.translate(5.0, -7.0), af.mul(af.scale(-1.0, 1.0), af.rotate(math.radians(17))))
-VM = {"R30": MATS["R30"], "R90": MATS["R90"], "MX": MATS["MX"], "T": MATS["T"], "R17MT": R17MT, "S2": af.scale(2.0),
+# SWAP / NSWAP: the reflections in y = x and y = -x, the isometries of negative determinant with a = d = 0
+VM = {"R30": MATS["R30"], "R90": MATS["R90"], "MX": MATS["MX"], "SWAP": MATS["SWAP"], "NSWAP": (0.0, -1.0, -1.0, 0.0, 2.0, 1.0),
+      "T": MATS["T"], "R17MT": R17MT, "S2": af.scale(2.0),
       "Shalf": af.scale(0.5), "Sm3": af.scale(-3.0)}
 VS = {"S2": 2.0, "Shalf": 0.5, "Sm3": 3.0}
 
